@@ -198,3 +198,38 @@ func (v *VerifClient) ConnCacheSize() int {
 	defer v.C.clients.m.RUnlock()
 	return len(v.C.clients.regions)
 }
+
+// VerifConnCache is a stand-alone connection cache (clientRegionCache).
+type VerifConnCache struct{ rcc *clientRegionCache }
+
+// VerifNewConnCache returns an empty connection cache.
+func VerifNewConnCache() *VerifConnCache {
+	return &VerifConnCache{&clientRegionCache{
+		logger:  slog.Default(),
+		regions: make(map[hrpc.RegionClient]map[hrpc.RegionInfo]struct{}),
+	}}
+}
+
+func (c *VerifConnCache) Put(addr string, r hrpc.RegionInfo,
+	newClient func() hrpc.RegionClient) hrpc.RegionClient {
+	return c.rcc.put(addr, r, newClient)
+}
+func (c *VerifConnCache) Del(r hrpc.RegionInfo) { c.rcc.del(r) }
+func (c *VerifConnCache) ClientDown(rc hrpc.RegionClient) map[hrpc.RegionInfo]struct{} {
+	return c.rcc.clientDown(rc)
+}
+func (c *VerifConnCache) CloseAll() { c.rcc.closeAll() }
+
+// Snapshot returns the cache content.
+func (c *VerifConnCache) Snapshot() map[hrpc.RegionClient][]hrpc.RegionInfo {
+	c.rcc.m.RLock()
+	defer c.rcc.m.RUnlock()
+	out := map[hrpc.RegionClient][]hrpc.RegionInfo{}
+	for rc, regs := range c.rcc.regions {
+		out[rc] = []hrpc.RegionInfo{}
+		for r := range regs {
+			out[rc] = append(out[rc], r)
+		}
+	}
+	return out
+}
